@@ -48,7 +48,11 @@ def chain_term(units: List[Any], kind: str, scale: bool = False) -> Tuple[str, A
     return "ok", t, p.result.unit, 1
 
 
-def replay(kindname: str, codes: List[str], tol: float, prelude: str = "") -> str:
+MAGS = {"float": "(7.5, -3.0, 1.0, 0.0, 123456.0)", "int": "(7, -3, 1, 0, 123456)",
+        "dec": "(Decimal('7.5'), Decimal('-3'), Decimal('1'), Decimal('0'), Decimal('123456'))"}
+
+
+def replay(kindname: str, codes: List[str], tol: float, prelude: str = "", kind: str = "float") -> str:
     us = ", ".join(codes)
     return (families.REPLAY_IMPORTS + "from decimal import Decimal\n" + prelude + f"""
 units = [{us}]
@@ -60,18 +64,19 @@ def conv(m, path):
     return float(q.magnitude)
 bad = []
 try:
-    for m in (7.5, -3.0, 1.0, 0.0, 123456.0):
+    for m in {MAGS[kind]}:      # magnitudes of the numeric type the obligation failed for
+        mf = float(m)
         if {kindname!r} == 'roundtrip':
             r = conv(m, [units[0], units[1], units[0]])
-            if abs(r - m) > {tol!r} * abs(m): bad.append(('roundtrip', m, r))
+            if abs(r - mf) > {tol!r} * abs(mf): bad.append(('roundtrip', m, r))
         elif {kindname!r} == 'self':
             r = conv(m, [units[0], units[0]])
-            if abs(r - m) > 1e-12 * abs(m): bad.append(('self', m, r))
+            if abs(r - mf) > 1e-12 * abs(mf): bad.append(('self', m, r))
         elif {kindname!r} == 'triangle':
             r1, r2 = conv(m, units), conv(m, [units[0], units[-1]])
             if abs(r1 - r2) > {tol!r} * abs(r2): bad.append(('triangle', m, r1, r2))
         else:
-            r = conv(m, units[:2]); r0 = conv(0.0, units[:2]); r2 = conv(2.5 * m, units[:2])
+            r = conv(m, units[:2]); r0 = conv(m * 0, units[:2]); r2 = conv(5 * m / 2 if not isinstance(m, int) else 5 * m, units[:2]) / (1 if not isinstance(m, int) else 2)
             if r0 != 0 or (m > 0) != (r > 0) and m != 0 or abs(r2 - 2.5 * r) > 1e-9 * abs(r2) + 1e-300:
                 bad.append(('linear', m, r, r0, r2))
 except NotFound:
@@ -102,7 +107,7 @@ def check_pair(acc: work.Acc, u: Any, v: Any, kind: str, tol: float, label: str,
         else:
             acc.ob("sat", f"{label}/{kind}:{name}", key)
             acc.out["viol"].append((f"C05:{name}:{label}", f"{what} for {label}",
-                                    replay(rk, cs, max(tol, 1e-9), prelude)))
+                                    replay(rk, cs, max(tol, 1e-9), prelude, kind)))
 
     zero = z3.substitute(t_uv, (var(kind, "m"), z3.IntVal(0) if kind == "int" else z3.RealVal(0)))
     ask(zero == 0, "zero-to-zero", "conv(0) != 0", "linear", codes)
@@ -120,7 +125,7 @@ def check_pair(acc: work.Acc, u: Any, v: Any, kind: str, tol: float, label: str,
     if un is not v:
         acc.ob("sat", f"{label}/{kind}:unit", key)
         acc.out["viol"].append((f"C05:unit:{label}", "result not in the requested unit",
-                                replay("linear", codes, tol, prelude)))
+                                replay("linear", codes, tol, prelude, kind)))
     # round trip through the real code
     o_rt, t_rt, _, _ = chain_term([u, v, u], kind)
     acc.out["paths"] += 1
@@ -139,7 +144,7 @@ def check_self(acc: work.Acc, u: Any, kind: str, label: str, code: str, prelude:
     if o != "ok":
         acc.ob("sat", f"{label}/{kind}:self-conversion-raises", (label, kind))
         acc.out["viol"].append((f"C05:self:{label}", f"converting {label} to itself raises {o}",
-                                replay("self", [code], 0.0, prelude)))
+                                replay("self", [code], 0.0, prelude, kind)))
         return
     # exact for unprefixed units; a prefixed unit goes through `m * 10**k * (1 / 10**k)` whose
     # float constants are not exact reciprocals: allow that rounding (1e-12 relative)
@@ -151,7 +156,7 @@ def check_self(acc: work.Acc, u: Any, kind: str, label: str, code: str, prelude:
            f"{label}/{kind}:self-identity", (label, kind))
     if r == "sat":
         acc.out["viol"].append((f"C05:self:{label}", f"{label} -> itself changes the magnitude",
-                                replay("self", [code], 0.0, prelude)))
+                                replay("self", [code], 0.0, prelude, kind)))
 
 
 def check_triple(acc: work.Acc, u: Any, v: Any, w: Any, kind: str, tol: float, label: str,
@@ -173,7 +178,7 @@ def check_triple(acc: work.Acc, u: Any, v: Any, w: Any, kind: str, tol: float, l
     else:
         acc.ob("sat", f"{label}/{kind}:route-independent", key)
         acc.out["viol"].append((f"C05:route:{label}", f"via-intermediate differs from direct for {label}",
-                                replay("triangle", codes, max(tol, 1e-9), prelude)))
+                                replay("triangle", codes, max(tol, 1e-9), prelude, kind)))
 
 
 def ambiguous(orc: Any, *units: Any) -> bool:
